@@ -81,3 +81,95 @@ func RunCheck(t *testing.T, prop string, scs []Sc, quick, thorough time.Duration
 	c.Set("bound_rule", "deviation = choosing a non-first enabled actor (sticky postponement of the skipped ones) and/or a non-default answer variant; all executions with <= B deviations from the scenario's default policy are run; B iterated 0..bound")
 	ExitCode = c.Finish()
 }
+
+// BFSSc names a scenario searched by explicit-state BFS to a depth per tier.
+type BFSSc struct {
+	Name string
+	Q, T int
+}
+
+// RunBFSCheck is the body of TestCheck for an explicit-state check: pruned BFS to the tier depth for
+// every scenario, plus the unpruned search two levels shallower whose reachable key set must equal the
+// pruned one's up to that depth (differential validation of the canonical state key).
+func RunBFSCheck(t *testing.T, prop string, scs []BFSSc, quick, thorough time.Duration, assumptions []string, extra ...Sc) {
+	if os.Getenv("VERIF_WORKER") != "" {
+		t.Skip()
+	}
+	if p := os.Getenv("VERIF_REPLAY"); p != "" {
+		ExitCode = ReplayFile(t, p)
+		return
+	}
+	c := ev.NewCheck(prop, "model_checking")
+	c.Assumptions = assumptions
+	e := NewExplorer(c)
+	defer e.Close()
+	e.Accept = func(v ev.Violation) bool { return v.Property == prop }
+	end := time.Now().Add(ev.Deadline(quick, thorough))
+	all := true
+	states, trans := 0, 0
+	var diff []map[string]interface{}
+	for i, s := range scs {
+		left := time.Until(end)
+		if left < 0 {
+			left = 0
+		}
+		e.Deadline = time.Now().Add(left / time.Duration(len(scs)-i+len(extra)))
+		depth := s.Q
+		if ev.Tier() == "thorough" {
+			depth = s.T
+		}
+		keys, tr, ok := e.BFS(s.Name, depth, true)
+		states += len(keys)
+		trans += tr
+		if !ok {
+			all = false
+			continue
+		}
+		// differential: unpruned, two levels shallower
+		d2 := depth - 2
+		if d2 < 1 {
+			continue
+		}
+		e.Deadline = time.Now().Add(time.Until(e.Deadline) + left/time.Duration(4*len(scs)))
+		keys2, tr2, ok2 := e.BFS(s.Name, d2, false)
+		trans += tr2
+		if !ok2 {
+			diff = append(diff, map[string]interface{}{"scenario": s.Name, "depth": d2, "completed": false})
+			continue
+		}
+		missing, extraK := 0, 0
+		for k := range keys2 {
+			if _, ok := keys[k]; !ok {
+				missing++
+				if missing <= 2 {
+					fmt.Printf("  key reached only without pruning:\n    %s\n    via %v\n", k, e.LastPaths[k])
+				}
+			}
+		}
+		for k, d := range keys {
+			if _, ok := keys2[k]; !ok && d <= d2 {
+				extraK++
+			}
+		}
+		diff = append(diff, map[string]interface{}{"scenario": s.Name, "depth": d2, "completed": true, "unpruned_states": len(keys2), "unpruned_transitions": tr2, "keys_missing_in_pruned": missing, "keys_missing_in_unpruned": extraK})
+		if missing > 0 || extraK > 0 {
+			c.EngineError(fmt.Sprintf("canonical state key is unsound for %s: %d keys reached only by the unpruned search, %d only by the pruned one (depth <= %d)", s.Name, missing, extraK, d2))
+		}
+	}
+	for i, s := range extra {
+		left := time.Until(end)
+		if left < 0 {
+			left = 0
+		}
+		e.Deadline = time.Now().Add(left / time.Duration(len(extra)-i))
+		if _, ok := e.Explore(s.Name, s.Bound()); !ok {
+			all = false
+		}
+	}
+	e.Summarize(all)
+	c.Set("states", states)
+	c.Set("transitions", trans)
+	c.Set("state_rule", "a state is a canonical key of the complete component state (private fields via bridge dump, coordinator store, request in flight, parked gates, oracle-relevant history); successors by re-executing the history on a fresh real instance plus one enabled event; invariants evaluated in every state")
+	c.Set("canonicalisation_differential", diff)
+	ExitCode = c.Finish()
+}
